@@ -79,6 +79,9 @@ def classify_known(prop, msg, op, cfg, before, after, known):
             b, a = before["schedule"].get(name), after["schedule"].get(name)
             if b and a and len(a["slots"]) == len(b["slots"]) + 1 and _only_appended_delays(before, after, [name]) and (kid != "KF-C09-2" or op[3]):
                 return kid
+        elif kid == "KF-C09-4":
+            if op[0] in ("enable_eom", "disable_eom", "modify_eom") and _only_appended_delays(before, after, [op[1]]):
+                return kid
         elif kid == "KF-C09-3":
             if _only_appended_delays(before, after, list(op[1])):
                 return kid
@@ -355,4 +358,131 @@ def check_C09(seq, before, after, op, ok, ctx, est):
     if ok and op[0] in ("estimate", "readonly") and before != after:
         diff = [k for k in before if before[k] != after[k]]
         out.append(f"read-only operation {op[:2]} changed the sequence ({diff})")
+    return out
+
+
+# --------------------------------------------------------------------------
+TWO_PI = 2 * math.pi
+
+
+def _cong(a, b, tol=1e-7):
+    d = (a - b) % TWO_PI
+    return min(d, TWO_PI - d) < tol
+
+
+def check_C07(seq, before, after, op, ok, ctx, est):
+    out = []
+    sums = ctx.setdefault("phase_sum", {})
+    tainted = ctx.setdefault("phase_tainted", False)
+    if op[0] in ("enable_eom", "eom_pulse", "disable_eom", "modify_eom") and ok:
+        ctx["phase_tainted"] = True      # drift corrections: the expected sum is not tracked by this stand-in
+        return out
+    if ok and op[0] == "phase_shift":
+        for q in op[2]:
+            sums[(op[3], str(q))] = sums.get((op[3], str(q)), 0.0) + op[1]
+    if ok and op[0] == "add":
+        name = op[2]
+        cs = seq._schedule[name]
+        nb = len(before["schedule"][name]["slots"])
+        new = [s for s in cs.slots[nb:] if isinstance(s.type, Pulse)]
+        if new:
+            s = new[-1]
+            basis = cs.channel_obj.basis
+            import harness
+            prog = harness.make_pulse(op[1])
+            refs = {before["refs"][basis][str(q)][1][-1] for q in s.targets}
+            if len(refs) == 1 and not _cong(float(s.type.phase), float(prog.phase) + refs.pop()):
+                out.append(f"{name}: scheduled phase {float(s.type.phase)} is not programmed {float(prog.phase)} + reference")
+            for q in s.targets:
+                t_last = before["refs"][basis][str(q)][0][-1]
+                if s.ti < t_last:
+                    out.append(f"{name}: pulse starts at {s.ti} before the latest phase shift of {q} at {t_last}")
+                pps = float(prog.post_phase_shift)
+                if pps:
+                    sums[(basis, str(q))] = sums.get((basis, str(q)), 0.0) + pps
+    if not ctx.get("phase_tainted"):
+        for basis, d in after["refs"].items():
+            for q, (times, phases, last_used) in d.items():
+                if not _cong(phases[-1], sums.get((basis, q), 0.0)):
+                    out.append(f"phase reference of {q} in {basis} is {phases[-1]}, expected the sum of shifts {sums.get((basis, q), 0.0)} (mod 2pi)")
+                if any(b <= a for a, b in zip(times, times[1:])) or times[0] != 0:
+                    out.append(f"phase tracker of {q}/{basis} has unordered times {times}")
+                if any(not (0 <= p < TWO_PI) for p in phases):
+                    out.append(f"phase tracker of {q}/{basis} has a phase outside [0, 2pi)")
+    return out
+
+
+TIMELINE_OPS = ("declare", "dmm", "add", "add_dmm", "delay", "target", "align", "enable_eom", "eom_pulse", "disable_eom", "modify_eom", "measure")
+
+
+def check_C13(seq, before, after, op, ok, ctx, est):
+    out = []
+    if before["measurement"] is not None and ok and op[0] in TIMELINE_OPS:
+        out.append(f"{op[0]} accepted after measure()")
+    name = None
+    if op[0] in ("add", "add_dmm", "delay", "target"):
+        name = op[2]
+    elif op[0] in ("enable_eom", "eom_pulse", "disable_eom", "modify_eom"):
+        name = op[1]
+    if name in before["schedule"]:
+        b = before["schedule"][name]
+        in_eom = bool(b["eom"]) and b["eom"][-1][4] is None
+        if ok and in_eom and op[0] in ("add", "target", "enable_eom"):
+            out.append(f"{op[0]} accepted on {name} while it is in EOM mode")
+        if ok and not in_eom and op[0] in ("eom_pulse", "disable_eom", "modify_eom"):
+            out.append(f"{op[0]} accepted on {name} outside EOM mode")
+        if ok and op[0] in ("add", "eom_pulse") and not b["slots"]:
+            out.append(f"{op[0]} accepted on local channel {name} without a target")
+    if op[0] == "declare" and ok and op[1] in before["schedule"]:
+        out.append(f"channel name {op[1]} declared twice")
+    if op[0] == "declare" and ok:
+        ids = [cs.channel_id for cs in seq._schedule.values()]
+        if len(ids) != len(set(ids)) and not ctx["dev"].reusable_channels:
+            out.append(f"channel id declared twice on a device without reusable channels: {ids}")
+    return out
+
+
+def check_C15(seq, before, after, op, ok, ctx, est):
+    out = []
+    for name, cs in seq._schedule.items():
+        ch = cs.channel_obj
+        if not cs.eom_blocks:
+            continue
+        dur = cs.get_duration()
+        for b in cs.eom_blocks:
+            tf = b.tf if b.tf is not None else dur
+            for s in cs.slots:
+                if not isinstance(s.type, Pulse) or not (b.ti <= s.ti < tf):
+                    continue
+                amp = np.asarray(s.type.amplitude.samples.as_array(detach=True), dtype=float)
+                det = np.asarray(s.type.detuning.samples.as_array(detach=True), dtype=float)
+                sq_on = np.allclose(amp, float(b.rabi_freq)) and np.allclose(det, float(b.detuning_on))
+                sq_off = np.allclose(amp, 0.0) and np.allclose(det, float(b.detuning_off))
+                if not (sq_on or sq_off):
+                    out.append(f"{name}: pulse at {s.ti} inside the EOM block from {b.ti} is neither the setpoint nor the off-detuning")
+        # off-detuning is the allowed option closest to the requested optimum
+    if ok and op[0] in ("enable_eom", "modify_eom") and op[1] in seq._schedule:
+        cs = seq._schedule[op[1]]
+        b = cs.eom_blocks[-1]
+        eom = cs.channel_obj.eom_config
+        opts = np.asarray(eom.detuning_off_options(float(b.rabi_freq), float(b.detuning_on)), dtype=float)
+        want = op[4]
+        best = opts[np.argmin(np.abs(opts - want))]
+        if abs(float(b.detuning_off) - best) > 1e-9:
+            out.append(f"{op[1]}: off-detuning {float(b.detuning_off)} is not the allowed option closest to {want} ({best})")
+    if ok and op[0] == "enable_eom" and op[1] in before["schedule"]:
+        name = op[1]
+        cs = seq._schedule[name]
+        b = before["schedule"][name]["slots"]
+        if b and b[-1][2] > 0:
+            ch = cs.channel_obj
+            buf = cs.slots[-1]
+            want = ch._eom_buffer_time
+            exp = max(want, ch.min_duration)
+            exp = exp if exp % ch.clock_period == 0 else exp + ch.clock_period - exp % ch.clock_period
+            if buf.tf - buf.ti != exp:
+                out.append(f"{name}: EOM start buffer lasts {buf.tf - buf.ti}, expected {exp}")
+            pp = [x for x in cs.slots[: len(b)] if isinstance(x.type, Pulse)]
+            if pp and buf.ti < pp[-1].tf + pp[-1].type.fall_time(ch, in_eom_mode=False):
+                out.append(f"{name}: EOM start buffer begins at {buf.ti} before the previous pulse ramped down")
     return out
